@@ -354,6 +354,11 @@ struct QuantSys {
       c.ok("sorted-view-ordered", ok_sorted, "sorted view is not ordered");
       c.ok("sorted-view-cumulative-increasing", ok_cum, "cumulative weights not strictly increasing");
       c.eq("sorted-view-total==n", prev, n);
+      // the sketch's own answers (which may come from a sorted view it cached earlier) are those of a view built now
+      for (size_t g = 0; g < grid.size(); ++g) for (int inc = 0; inc < 2; ++inc)
+        c.eq("rank==rank-from-a-freshly-built-sorted-view", sk.get_rank(grid[g], inc == 1), sv.get_rank(grid[g], inc == 1));
+      for (int j = 0; j <= 8; ++j) for (int inc = 0; inc < 2; ++inc) { T a = sk.get_quantile(j / 8.0, inc == 1), b = sv.get_quantile(j / 8.0, inc == 1);
+        c.ok("quantile==quantile-from-a-freshly-built-sorted-view", !cmp(a, b) && !cmp(b, a), "get_quantile(" + str(j / 8.0) + ") = " + Dom<T>::s(a) + ", a view built now gives " + Dom<T>::s(b)); }
     }
     const bool exact = !sk.is_estimation_mode();
     // ranks over the grid
